@@ -236,6 +236,15 @@ def hands_case(draw):
                 hole_form=c['hole_form'], board_form=c['board_form'])
 
 
+@st.composite
+def card_text_case(draw):
+    """Arbitrary text over the card alphabet: accepted text denotes cards
+    whose own text parses back to them; anything else is refused with
+    ValueError (never another exception)."""
+    return dict(kind='card_text', text=draw(st.text(
+        alphabet='AKQJT98765432akqjtcdhs? ,10xX', max_size=12)))
+
+
 def budget(tier):
     if tier == 'quick':
         return dict(examples=20000, wall=90)
@@ -244,7 +253,7 @@ def budget(tier):
 
 def strategy(tier):
     return st.one_of(layout_case(), cards_case(), invalid_case(),
-                     helper_case(), hands_case())
+                     helper_case(), hands_case(), card_text_case())
 
 
 def _state(antes, blinds, stacks, n, bb, seed, autos=FULL, game='NT',
@@ -410,6 +419,38 @@ def check(case, stats):
                 stats.mark_nontrivial(repr(case))
             stats.sample(dict(cards=cards, form=form, where=where), nt)
             return out
+        if kind == 'card_text':
+            text = case['text']
+            res = []
+            for name, f in (('Card.parse', lambda: tuple(Card.parse(text))),
+                            ('Card.clean', lambda: tuple(Card.clean(text)))):
+                try:
+                    res.append(f())
+                except ValueError:
+                    res.append(None)
+                except Exception as e:  # noqa: BLE001
+                    if not _is_engine_exception(e):
+                        raise
+                    return [V(ID, 'card_text', 'wrong_exception',
+                              f'{name}({text!r}) raised {e!r} (ValueError'
+                              ' expected for text that is no card list)')]
+            if res[0] != res[1]:
+                return [V(ID, 'card_text', 'parse_vs_clean',
+                          f'{text!r}: Card.parse {res[0]} vs Card.clean'
+                          f' {res[1]}')]
+            stats.count('card_text:' + ('accepted' if res[0] is not None
+                                        else 'refused'))
+            if res[0]:
+                back = ''.join(map(repr, res[0]))
+                again = tuple(Card.parse(back))
+                if again != res[0]:
+                    return [V(ID, 'card_text', 'round_trip',
+                              f'{text!r} -> {res[0]} -> {back!r} -> {again}')]
+                stats.count('nontrivial')
+                stats.mark_nontrivial(('card_text', text))
+            stats.sample(dict(card_text=text, cards=repr(res[0])),
+                         bool(res[0]))
+            return []
         if kind == 'hands':
             from .c04 import as_form
             cls = getattr(pokerkit, case['cls'])
